@@ -692,8 +692,10 @@ def unbox2 : Nat → Pkg → M PV
       let st ← getSt
       if st.proxies.any (idpEq idp) then pure (.proxy idp.1 v1 v2)
       else do
+        -- the class first (`_netref_class`: possibly a round trip during which this very object may arrive again),
+        -- the proxy cache is looked up once more only afterwards: one proxy per remote object
         netrefFactory idp
-        modify (fun st => { st with proxies := st.proxies ++ [idp] })
+        modify (fun st => if st.proxies.any (idpEq idp) then st else { st with proxies := st.proxies ++ [idp] })
         pure (.proxy idp.1 v1 v2)
     else throwE .valueError
 
@@ -1137,6 +1139,13 @@ def loadExc (val : Val) : M Ans :=
     | .imm (.str nm) => pure (.raise { cls := strOfPy nm })
     | _ => throwE .notModelled
 
+/-- `_deliver_response`: a payload that cannot be decoded here (`Exception`, not `EOFError`) becomes the request's outcome -
+that failure, as an exception - instead of leaving `serve()`; anything else goes on -/
+def deliverResponse (seq : Val) (r : Except Exc Ans) : M Unit :=
+  match r with
+  | .ok a => seqCallback seq a
+  | .error x => if x.eof || !x.isException then throwX x else seqCallback seq (.raise x)
+
 /-- `_dispatch(data)` after `brine.load`, or the decoder's exception -/
 def dispatch (w : Wire) : M Unit :=
   match w with
@@ -1146,11 +1155,13 @@ def dispatch (w : Wire) : M Unit :=
     let (msg, seq, args) ← liftE (unpack3 v)
     if pyEqNat msg Gen.Handlers.msgRequest then dispatchRequest seq args
     else if pyEqNat msg Gen.Handlers.msgReply then do
-      let obj ← unboxTop args
-      seqCallback seq (.ret obj)
+      let r ← attempt (unboxTop args)
+      deliverResponse seq (match r with
+        | .ok obj => .ok (.ret obj)
+        | .error x => .error x)
     else if pyEqNat msg Gen.Handlers.msgException then do
-      let a ← loadExc args
-      seqCallback seq a
+      let r ← attempt (loadExc args)
+      deliverResponse seq r
     else throwE .valueError
 
 /-! ### waiting and serving -/
